@@ -436,6 +436,11 @@ def eigh(a):
 
 @eigh.register(FermionicArray)
 def eigh_fermionic(a):
+    if a.phases:
+        # the eigenvectors appear twice in the reconstruction, so any
+        # lazy phases must be absorbed into the blocks first
+        a = a.phase_sync()
+
     eigenvalues, eigenvectors = eigh.dispatch(AbelianArray)(a)
 
     if not a.indices[1].dual:
@@ -487,6 +492,11 @@ def solve(a, b):
 
 @solve.register(FermionicArray)
 def solve_fermionic(a, b):
+    if a.phases:
+        a = a.phase_sync()
+    if b.phases:
+        b = b.phase_sync()
+
     x = solve.dispatch(AbelianArray)(a, b)
 
     if x.indices[0].dual:
